@@ -127,7 +127,17 @@ EXPORT errno_t _memset_s_chk(void *dest, rsize_t dmax, int value, rsize_t n,
         n = dmax;
     }
 
-    mem_prim_set(dest, n, (uint8_t)value);
+    {
+        /* mem_prim_set takes a 32-bit length; an object of known size may be
+           larger than that */
+        uint8_t *dp = (uint8_t *)dest;
+        while (n > 0x40000000UL) {
+            mem_prim_set(dp, 0x40000000U, (uint8_t)value);
+            dp += 0x40000000UL;
+            n -= 0x40000000UL;
+        }
+        mem_prim_set(dp, (uint32_t)n, (uint8_t)value);
+    }
     MEMORY_BARRIER;
 
     return (RCNEGATE(err));
